@@ -23,7 +23,9 @@ RULE = (
     "same small pools plus near-misses.  Oracle: the set of ZIDs returned by "
     "repo.get_notes_by_query(build_zorg_query(text).where) must contain every row our three-valued evaluator "
     "makes True and no row it makes False, the rows being read with sqlite3 (rows with verdict Unknown -- "
-    "unspecified date/integer coercions -- are not compared, and counted).  Non-trivial = a query whose result "
+    "unspecified date/integer coercions -- are not compared, and counted).  On the engine's own answers the set "
+    "laws result((a) | (b)) = result(a) U result(b), result((a) (b)) = result(a) n result(b) and, for single "
+    "complementable atoms, result(!x) = universe - result(x) are checked as well.  Non-trivial = a query whose result "
     "is neither empty nor everything, or that contains a negation / comparison / a literal % _ \\; distinct by "
     "SHA-1 of (directory, query)."
 )
@@ -90,6 +92,7 @@ def check(case, rec: Rec) -> None:
         rows = build_index(case, zdir, rec)
         universe = {r["zid"] for r in rows}
         ctx = {"today": today, "rows": rows}
+        results = []
         for qi, o in enumerate(case["queries"]):
             text = "W " + Q.render_or(o)
             errs = Q.syntax_errors(text)
@@ -124,6 +127,29 @@ def check(case, rec: Rec) -> None:
                 rec.label("atom:" + a["t"] + ("!" if a.get("neg") else ""))
             if got and got != universe:
                 rec.label("selective-result")
+            results.append((o, got))
+        # metamorphic set laws on the engine's own answers (independent of our evaluator)
+        for (o1, g1), (o2, g2) in list(zip(results, results[1:]))[:3]:
+            t1, t2 = Q.render_or(o1), Q.render_or(o2)
+            for text, want, law in ((f"W ({t1}) | ({t2})", g1 | g2, "union"), (f"W ({t1}) ({t2})", g1 & g2, "intersection")):
+                if Q.syntax_errors(text) and not (Q.has_tolerated_syntax(o1) | Q.has_tolerated_syntax(o2)):
+                    continue
+                got = set(run_where(zdir, text, rec))
+                if got != want:
+                    raise Violation("set-law:" + law, f"{text!r} returns {sorted(got)}, but its operands return "
+                                    f"{sorted(g1)} and {sorted(g2)}",
+                                    case={"dir": case["dir"], "today": case["today"], "queries": [o1, o2]})
+                rec.info["set_law_checks"] = rec.info.get("set_law_checks", 0) + 1
+        for o, g in results[:4]:
+            atoms = [a for af in o["ands"] for a in af["atoms"]]
+            if len(atoms) == 1 and "neg" in atoms[0] and not (atoms[0]["t"] == "prop" and atoms[0]["op"] != "exists"):
+                flipped = {"ands": [{"atoms": [dict(atoms[0], neg=not atoms[0]["neg"])]}]}
+                got = set(run_where(zdir, "W " + Q.render_or(flipped), rec))
+                if got != universe - g:
+                    raise Violation("set-law:complement", f"{Q.render_or(o)!r} returns {sorted(g)}, its negation "
+                                    f"{sorted(got)}, universe {sorted(universe)}",
+                                    case={"dir": case["dir"], "today": case["today"], "queries": [o, flipped]})
+                rec.info["set_law_checks"] = rec.info.get("set_law_checks", 0) + 1
     rec.info["nontrivial_queries"] = nontriv
     rec.nontrivial = nontriv >= 1
 
